@@ -515,7 +515,7 @@ impl Check for C16 {
         "fault_enumeration"
     }
     fn rule(&self) -> String {
-        "Inputs: (i) every single-token mutation of a corpus of 30 small valid programs covering all statement kinds and preprocessor lines: delete, duplicate, swap with neighbour, replace by each token of a 40-token alphabet (keywords, operators, brackets, out-of-range literals, @0@), and every truncation at a token boundary; (ii) ~250 directed inputs from the property's list (empty file, out-of-range literals in every radix and position, --1, constant /0, void values used, undeclared and prototype-only names, *= /=, infix ~ !, unbalanced directives, self- and mutually-referential macros, nesting depth 10..10000, non-UTF-8, NUL); (iii) every valid program of the shared executable corpus (compile only). Each runs in a worker process under catch_unwind with a per-input watchdog and RLIMIT_AS; aborts and hangs are attributed through a progress file and confirmed by a solo re-run. Oracle: compile() returns Ok or Err; a Syntax/Compiler error names in.c and a line inside the input; no panic, abort, stack overflow or time-out. Failures are keyed by panic location (file:line), so a new panic site is a new violation. Non-trivial = input rejected or crashing; distinct outcomes = distinct (error kind, message prefix).".into()
+        "Inputs: (i) every single-token mutation of a corpus of 33 small valid programs covering all statement kinds and preprocessor lines: delete, duplicate, swap with neighbour, replace by each token of a 40-token alphabet (keywords, operators, brackets, out-of-range literals, @0@), and every truncation at a token boundary; (ii) ~400 directed inputs, each also under -O0 --insert-code, from the property's list (empty file, out-of-range literals in every radix and position, --1, constant /0, void values used, undeclared and prototype-only names, *= /=, infix ~ !, unbalanced directives, self- and mutually-referential macros, nesting depth 10..10000, non-UTF-8, NUL); (iii) every valid program of the shared executable corpus (compile only). Each runs in a worker process under catch_unwind with a per-input watchdog and RLIMIT_AS; aborts and hangs are attributed through a progress file and confirmed by a solo re-run. Oracle: compile() returns Ok or Err; a Syntax/Compiler error names in.c and a line inside the input; no panic, abort, stack overflow or time-out. Failures are keyed by panic location (file:line), so a new panic site is a new violation. Non-trivial = input rejected or crashing; distinct outcomes = distinct (error kind, message prefix).".into()
     }
     fn assumptions(&self) -> Vec<String> {
         vec!["mutation distance 1 from the corpus; directed inputs as listed".into(), "time-out 10 s per input (compile() of these inputs normally takes < 1 ms)".into()]
